@@ -273,3 +273,52 @@ def c07_var_position(bits: int, p: int, dflt: bool, infrag: bool) -> bool:
         observe(txt, resp)
         return verdict(ok and not resp.get("errors"))          # C06 direction, checked here for the same generator
     return verdict(expect_refused(txt, {"v": val}))
+
+
+# ---- two schemas in one process with the same Parent.field names but different kinds ------------------------------------
+# (rule objects are process-wide; a verdict reached for one schema must not be reused for another)
+from vf.env import build, DictCache  # noqa: E402
+SDL_LEAF = "type Query { a: Int item: String thing: Int u(x: Int): Int }"
+SDL_COMP = "type Item { id: Int } input In { v: Int } type Query { a: Item item: Item thing: [Item] u(x: In): Int }"
+TWO_LOG = []
+
+
+async def _two_res(parent, args, ctx, info):
+    TWO_LOG.append(tuple(info.path.as_list()))
+    return {"id": 1} if info.field_name in ("a", "item") else ([{"id": 1}] if info.field_name == "thing" else 1)
+
+
+async def _leaf_res(parent, args, ctx, info):
+    TWO_LOG.append(tuple(info.path.as_list()))
+    return "s" if info.field_name == "item" else 1
+
+
+ENG_LEAF = build(SDL_LEAF, "c07_leaf", custom_default_resolver=_leaf_res, query_cache_decorator=None)
+ENG_COMP = build(SDL_COMP, "c07_comp", custom_default_resolver=_two_res, query_cache_decorator=None)
+TWO_DOCS = ["{ a }", "{ item }", "{ thing }", "{ a { id } }", "{ item { id } }", "{ u(x: 1) }", "{ u(x: {v: 1}) }"]
+# validity per schema: (leaf schema, composite schema)
+TWO_VALID = [(True, False), (True, False), (True, False), (False, True), (False, True), (True, False), (False, True)]
+
+
+@obligation(tier="quick", timeout=200, samples=[{"d1": 0, "d2": 0, "first_leaf": True}, {"d1": 4, "d2": 1, "first_leaf": False}],
+            selectors=["d1: document sent first to one engine", "d2: document then sent to the OTHER engine", "first_leaf: which engine goes first"],
+            bounds="7 documents x 7 documents x 2 orders over two schemas whose Query fields have the same names but leaf vs composite / scalar vs input-object types",
+            note="a document invalid for the engine's own schema is refused (nothing runs) even when another schema in the process, for which it is valid, validated it first; and vice versa")
+def c07_two_schemas(d1: int, d2: int, first_leaf: bool) -> bool:
+    """
+    post: _
+    """
+    d1 = pick(d1, len(TWO_DOCS)); d2 = pick(d2, len(TWO_DOCS)); first_leaf = pickb(first_leaf)
+    order = [(ENG_LEAF, 0, d1), (ENG_COMP, 1, d2)] if first_leaf else [(ENG_COMP, 1, d1), (ENG_LEAF, 0, d2)]
+    for eng, which, d in order:
+        del TWO_LOG[:]
+        ok, r = safe(lambda: env.run(eng.execute(TWO_DOCS[d])))
+        observe(TWO_DOCS[d], which, r)
+        if not ok:
+            return verdict(False)
+        if TWO_VALID[d][which]:
+            if r.get("errors") or r.get("data") is None:
+                return verdict(False)
+        elif r.get("data") is not None or not r.get("errors") or TWO_LOG:
+            return verdict(False)
+    return verdict(True)
